@@ -330,9 +330,9 @@ def dispatch(j): return serial_job(j) if j['kind'] == 'serial' else duel_job(j) 
 def run(ctx):
     ctx.need('plain', 'asan'); common = dict(paths=ctx.paths, hdr=ctx.paths['asan']['hdr'], scratch=ctx.scratch); jobs = []
     for i in range(ctx.q(32, 64)): jobs.append(dict(common, kind='serial', cfg='asan' if i % 4 == 0 else 'plain', seed=ctx.seed * 1000 + i, nproc=2 + (i % 2), cases=ctx.q(40, 200), perms=None))
-    for i in range(ctx.q(96, 400)): jobs.append(dict(common, kind='conc', cfg='asan' if i % 4 == 0 else 'plain', seed=ctx.seed * 1000 + 500 + i, nproc=2 + (i % 2), iters=ctx.q(30, 50), delay_p=0.3, delay_us=rnd_us(i)))
+    for i in range(ctx.q(96, 240)): jobs.append(dict(common, kind='conc', cfg='asan' if i % 4 == 0 else 'plain', seed=ctx.seed * 1000 + 500 + i, nproc=2 + (i % 2), iters=ctx.q(30, 50), delay_p=0.3, delay_us=rnd_us(i)))
     for i in range(ctx.q(2, 8)): jobs.append(dict(common, kind='observer', cfg='asan' if i % 2 else 'plain', seed=ctx.seed * 1000 + 700 + i))
-    for i in range(ctx.q(16, 96)): jobs.append(dict(common, kind='duel', cfg='plain', seed=ctx.seed * 1000 + 800 + i, nproc=2 + (i % 2), rounds=ctx.q(30, 120), delay_p=[0.3, 0.6][i % 2], delay_us=[50, 200, 800][i % 3]))
+    for i in range(ctx.q(16, 48)): jobs.append(dict(common, kind='duel', cfg='plain', seed=ctx.seed * 1000 + 800 + i, nproc=2 + (i % 2), rounds=ctx.q(30, 60), delay_p=[0.3, 0.6][i % 2], delay_us=[50, 200, 800][i % 3]))
     for part in pmap(dispatch, jobs, max(2, ctx.nproc // 3)): ctx.merge(part)
     ctx.rule = ('(i) one evaluation = one serialised interleaving of 2-3 processes x 1-3 calls (create/set/destroy/find/get on shared labels), distinct = (operation/existence shape, process order); '
                 '(ii) one evaluation = one concurrent run of 2-3 processes (30-50 script steps each) with PRNG delays at FS operations, checked by a history checker (unique written values, per-object register rule, conservation of objects); '
